@@ -69,6 +69,49 @@ pub fn front(src: &str) -> FrontObs {
     obs
 }
 
+/// A program around policy definitions in constructor form: any subset of the three fields, each a
+/// literal, an environment value, another policy (itself a literal, or defined through names) or an
+/// undefined name; the policy is used as a minting policy, as an address, or not at all.
+pub fn policy_probe(r: &mut Rng) -> String {
+    let mut s = String::from("party A;\nenv {\n    h: Bytes,\n    s: Bytes,\n    u: UtxoRef,\n}\n");
+    let hash_lit = format!("0x{}", "ab".repeat(28));
+    match r.below(4) {
+        0 => s.push_str(&format!("policy Other = {};\n", hash_lit)),
+        1 => s.push_str("policy Other {\n    hash: h,\n}\n"),
+        2 => s.push_str("policy Other {\n    hash: Third,\n}\npolicy Third {\n    hash: h,\n}\n"),
+        _ => s.push_str("policy Other {\n    script: s,\n}\n"),
+    }
+    let mut fields = vec![];
+    if r.chance(3, 4) {
+        fields.push(format!("hash: {}", *r.pick(&[hash_lit.as_str(), "h", "Other", "nope", "A", "0xabc"])));
+    }
+    if r.chance(1, 2) {
+        fields.push(format!("script: {}", *r.pick(&["0x4e4d01000033222220051200120011", "s", "nope", "Other"])));
+    }
+    if r.chance(1, 2) {
+        let lit = format!("0x{}#0", "cd".repeat(32));
+        fields.push(format!("ref: {}", *r.pick(&[lit.as_str(), "u", "nope"])));
+    }
+    if r.chance(1, 2) {
+        fields.reverse();
+    }
+    s.push_str("policy P {\n");
+    for f in &fields {
+        s.push_str(&format!("    {},\n", f));
+    }
+    s.push_str("}\n\ntx t(q: Int) {\n    input src {\n        from: A,\n        min_amount: Ada(q),\n    }\n");
+    let who = *r.pick(&["P", "P", "Other"]);
+    match r.below(5) {
+        0 => s.push_str(&format!("    mint {{\n        amount: AnyAsset({}, \"x\", 1),\n        redeemer: (),\n    }}\n    output {{\n        to: A,\n        amount: Ada(q),\n    }}\n", who)),
+        1 => s.push_str(&format!("    output {{\n        to: {},\n        amount: Ada(q),\n    }}\n", who)),
+        2 => s.push_str(&format!("    burn {{\n        amount: AnyAsset({}, \"x\", 1),\n        redeemer: (),\n    }}\n    output {{\n        to: A,\n        amount: Ada(q),\n    }}\n", who)),
+        3 => s.push_str(&format!("    input locked {{\n        from: {},\n        min_amount: Ada(q),\n        redeemer: (),\n    }}\n    output {{\n        to: A,\n        amount: Ada(q),\n    }}\n", who)),
+        _ => s.push_str("    output {\n        to: A,\n        amount: Ada(q),\n    }\n"),
+    }
+    s.push_str("}\n");
+    s
+}
+
 pub fn facade(src: &str) -> u8 {
     let r = std::panic::catch_unwind(|| {
         let mut ws = tx3_lang::Workspace::from_string(src.to_string());
@@ -202,8 +245,30 @@ fn names_of_kinds(p: &Prog, t: &Tx) -> Vec<String> {
 pub fn mutate(r: &mut Rng, p: &mut Prog) -> String {
     let ti = r.below(p.txs.len() as u64) as usize;
     let names = names_of_kinds(p, &p.txs[ti]);
-    let kind = r.below(16);
+    let kind = r.below(18);
     match kind {
+        16 | 17 => {
+            // a type with two cases, or a case with two fields, of one name
+            let variants: Vec<usize> = p.types.iter().enumerate().filter(|(_, td)| !td.cases.is_empty()).map(|(i, _)| i).collect();
+            if variants.is_empty() {
+                return "none".into();
+            }
+            let td = &mut p.types[*r.pick(&variants)];
+            let ci = r.below(td.cases.len() as u64) as usize;
+            if kind == 16 && !td.record {
+                let mut copy = td.cases[ci].clone();
+                if r.chance(1, 2) {
+                    copy.1.push(("extra".into(), srcgen::Ty::Int));
+                }
+                td.cases.push(copy);
+                return "case_name_collision".into();
+            }
+            if let Some(f) = td.cases[ci].1.first().cloned() {
+                td.cases[ci].1.push((f.0, if r.chance(1, 2) { f.1 } else { srcgen::Ty::Bytes }));
+                return "field_name_collision".into();
+            }
+            return "none".into();
+        }
         14 | 15 => {
             // a second input block whose name is that of an existing one, up to case
             let t = &mut p.txs[ti];
@@ -590,6 +655,27 @@ pub fn run(ctx: &mut Ctx, focus: Focus) {
     // C18 also quantifies over the example programs of the repository (no Gallina tree for
     // those: the repetition clause is evaluated by the harness itself)
     let mut impl_violations = vec![];
+    // C13: policy definitions in constructor form are outside the modelled core; on them the
+    // property is evaluated on the implementation directly (accepted => every tx lowers, no panic)
+    if focus == Focus::C13 {
+        let n_probes = if ctx.thorough { 2000 } else { 200 };
+        let mut probe_hist: std::collections::BTreeMap<String, usize> = Default::default();
+        for _ in 0..n_probes {
+            let text = policy_probe(&mut r);
+            let obs = front(&text);
+            let fac = if obs.parse_ok && !obs.analysis_panic { facade(&text) } else { 1 };
+            let bad_tx = obs.txs.iter().find(|t| t.kind != 0 && t.kind != 9);
+            let verdict = if !obs.parse_ok { "unparsed" } else if obs.analysis_panic { "analysis_panic" } else if !obs.accepted { "rejected" } else if bad_tx.is_some() { "accepted_not_lowered" } else { "accepted_lowered" };
+            *probe_hist.entry(verdict.to_string()).or_default() += 1;
+            if obs.analysis_panic || fac == 2 || (obs.accepted && bad_tx.is_some()) {
+                if impl_violations.len() < 20 {
+                    impl_violations.push(serde_json::json!({"index": -1, "ids": [141], "what": "a program with constructor-form policy definitions is accepted (or panics) and does not lower",
+                        "source": text, "lowering": bad_tx.map(|t| t.err.clone()), "facade": fac, "analysis_panic": obs.analysis_panic}));
+                }
+            }
+        }
+        ctx.meta.insert("policy_probes".into(), serde_json::json!(probe_hist));
+    }
     let mut examples_n = 0usize;
     if focus == Focus::C18 {
         let dir = std::path::Path::new("/repo/examples");
